@@ -72,6 +72,11 @@ CHECKS = {
             "AXILiteArbiter, AXILiteDecoder, AXILiteInterconnectShared, AXILiteCrossbar and point-to-point, 1..3 x 1..3, disjoint maps decoded by the real SoCRegion.decoder. Masters issue programs through five independently scheduled channels (AW before/with W, B/R back-pressure, garbage while idle; several outstanding through the arbiter alone), slaves pre-assert or withhold ready, queue up to Q requests, answer with schedule-driven latency. Checked: each accepted write (address, data, strobe) and read address appears at exactly one slave - the one decoding it; each response reaches the issuing master exactly once, in order, with the right data; no stray responses; all masters are served; hold rule on every DUT-driven channel; final slave memories equal the model.",
             "Trusted: Migen's simulator, harness agents. Known findings excluded by construction and replayed: AXILiteDecoder with more than one outstanding request per direction, and W before AW. The AXI4 twins (AXIArbiter/AXIDecoder/AXIInterconnectShared/AXICrossbar) share the structure but are not yet exercised.",
             "DESIGN.md section 4 / C08"),
+    "C01": ("translation_validation",
+            "differential property-based testing (Hypothesis): generated FHDL programs executed by the repository's simulator and, from the emitted text, by an IEEE 1364-2005 evaluator written for the emitted subset; lock-step comparison of every register, comb signal and memory word",
+            "Programs: grammar-generated fragments in two tiers (tier 1 assignment-normal form where no legitimate divergence exists - any disagreement is a violation; tier 2 nested arithmetic where vsim evaluates every right-hand side and condition twice, at IEEE context width and unbounded, and taints targets on which the two differ - disagreements on tainted signals are the known intermediate-overflow class, counted, not reported). Features: signedness mixes, constants incl. negative/boundary, slices/Cat/Replicate on both sides, Array reads, If/Elif/Else, Case with signed selectors, comb and sync logic in 1-2 clock domains with generated edge schedules, resets, non-zero/reset-less registers, memories (1-2 ports, every mode, granularity, read enable, async read, partial init), both comb emission styles. Each program runs 6..24 instants of generated stimuli in both executions; all compared signals and memory words are compared after every instant.",
+            "Trusted: vsim (validated by conformance vectors taken from the standard's text - exit 2 on disagreement), CPython, Hypothesis. Not compared: 'output reg' ports (no initialiser in the emitted text), Instances (not executed). Known semantic-gap classes excluded by construction: memories are not reset in Verilog, multi-clock memories forced READ_FIRST, NO_CHANGE with granularity, mixed-signedness Arrays, out-of-range addresses. Corpus of real cores: not yet part of this check.",
+            "DESIGN.md section 4 / C01"),
 }
 
 NOT_YET = {}
